@@ -85,7 +85,7 @@ def required(tier):
             "units_covered": 390, "prefixed_objects": 500 * k,
             "exception_classes": 15, "exception_roundtrips": 1500 * k,
             "subproc_items": 300 * k, "subproc_prefixed_absent": 200 * k, "subproc_app_modes": 4,
-            "cross_cases": 4000 * k, "cross_decisive": 1500 * k, "cross_pairs": 4, "cross_ops": 21,
+            "cross_cases": 4000 * k, "cross_decisive": 1500 * k, "cross_pairs": 5, "cross_ops": 21,
             "evolve_scenarios": 40 * (1 if tier == "quick" else 6), "evolve_op_kinds": 15,
             "lazy_triggers": 20}
 
@@ -104,7 +104,8 @@ def shards(tier, seed):
         out.append({"kind": "subproc", "name": f"subproc-{mode}", "app": mode,
                     "nit": ("float", "fraction", "decimal", "fraction", "float")[i],
                     "batches": 1 if q else 8, "size": 400 if q else 1200})
-    for i, pair in enumerate(("fresh/fresh", "fresh/deepcopy", "application/lazy", "deepcopy/deepcopy")):
+    for i, pair in enumerate(("fresh/fresh", "fresh/deepcopy", "application/lazy", "deepcopy/deepcopy",
+                              "module-level/module-level")):
         out.append({"kind": "cross", "name": f"cross-{pair}", "pair": pair, "n": 1700 if q else 30000})
     for i in range(5):
         out.append({"kind": "evolve", "name": f"evolve{i}", "part": i, "parts": 5, "random": 1 if q else 60})
@@ -917,6 +918,11 @@ def run_cross(spec, rec, rng, pools, pint, pintload, CH):
     elif pair == "deepcopy/deepcopy":
         R0 = pintload.registry()
         R1, R2 = copy.deepcopy(R0), copy.deepcopy(R0)
+    elif pair == "module-level/module-level":
+        # both operands are built through the registry-less module-level classes (pint.Quantity,
+        # pint.Unit), each while a DIFFERENT explicit registry is installed as application registry:
+        # the two objects share their class and differ only in the registry they carry
+        R1, R2 = pintload.registry(), pintload.registry()
     elif pair == "application/lazy":
         # R2: the lazily built default registry reached through the module-level classes;
         # R1: an explicit registry installed as application registry afterwards
@@ -942,6 +948,14 @@ def run_cross(spec, rec, rng, pools, pint, pintload, CH):
         """module_level: construct through pint.Quantity/pint.Unit (registry-less classes) — only
         meaningful for the application registry R1 of the application/lazy pair."""
         o = CH.build(reg, rc)
+        if pair == "module-level/module-level":
+            pint.set_application_registry(reg)
+            if rc["kind"] == "Unit":
+                return pint.Unit(o._units)
+            if rc["kind"] == "Quantity":
+                return pint.Quantity(o._magnitude, o._units)
+            if rc["kind"] == "Measurement":
+                return pint.Measurement(o.value.magnitude, o.error.magnitude, o._units)
         if module_level:
             if rc["kind"] == "Unit":
                 return pint.Unit(o._units)
@@ -1041,7 +1055,7 @@ def run_cross(spec, rec, rng, pools, pint, pintload, CH):
             rec.count("cross_both_rejected_differently")
         if i % 500 == 0:
             rec.sample(w)
-    if pair == "application/lazy":
+    if pair in ("application/lazy", "module-level/module-level"):
         pint.set_application_registry(pint._DEFAULT_REGISTRY)
 
 
